@@ -139,6 +139,7 @@ def judge(ir, w, sem, method, r, case, rec):
     rtol = 1e-6 if rec else 1e-9
     zero_nts = sorted(nt for nt in ir['nt'] if all(float(x.v) == 0 for x in val[nt].values()))
     trig = sem + ('/rec' if rec else '/nonrec') + ('/zero-valued-nonterminal' if zero_nts else '')
+    stalls = bool(zero_nts) and rec and stalls_before_keys_settle(ir, w, val)
     for cot in cots:
         key = (repr(ir['rules']), repr(sorted(ir['nl'].items())), repr(w), sem, method, cot)
         try:
@@ -193,11 +194,45 @@ def judge(ir, w, sem, method, r, case, rec):
                 break
         if bad:
             t2 = trig
-            if zero_nts and method == 'fixed-point' and rec:
+            if stalls and method == 'fixed-point':
                 t2 = trig + '/fixed-point'
             r.bad('wrong-gradient', 'sum_product.SumProduct.backward', t2, '%s/%s cotangent %r: %s; rules=%r nl=%r w=%r' % (sem, method, cot, bad, ir['rules'], ir['nl'], w), case, key)
         else:
             r.ok(key, outcome=(sem, method, 'rec' if rec else 'nonrec'), nontrivial=nonzero)
+
+
+def stalls_before_keys_settle(ir, w, val):
+    """Input predicate of known finding K03: in some recursive component the Kleene iteration from zero reaches its
+    fixed point exactly (two successive iterates are equal - in practice all zero) at a step at which the set of
+    nonterminals that have received a value has not yet reached its final extent.  (For the template whose factor is
+    a stored diagonal pattern the same can happen inside a block; there the coarser predicate 'some nonterminal is
+    zero-valued' is kept.)"""
+    if ir.get('patterned'):
+        return True
+    comps, reach = oracles.scc_oracle(IR.nt_graph(ir))
+    final = {nt: {ea: Fraction(float(x.v)) for ea, x in val[nt].items()} for nt in val}
+    for C in comps:
+        if len(C) == 1 and next(iter(C)) not in reach[next(iter(C))]:
+            continue
+
+        def pstep(P):
+            return {X for X in C if any(rule[0] == X and all(l in P for l, _ in rule[3] if l in C) for rule in ir['rules'])}
+        Pinf = set()
+        while pstep(Pinf) != Pinf:
+            Pinf = pstep(Pinf)
+        cur = dict(final)
+        for X in C:
+            cur[X] = {ea: Fraction(0) for ea in final[X]}
+        P = set()
+        for k in range(len(C) + 2):
+            new = oracles.step(ir, cur, w, 'sum', sorted(C))
+            P = pstep(P)
+            if all(new[X] == cur[X] for X in C):
+                if P != Pinf:
+                    return True
+                break
+            cur.update(new)
+    return False
 
 
 def flat(x):
